@@ -151,14 +151,14 @@ Definition check_par (prop : Z) (inp impl : sx) : sx :=
   (* ---- real TCP runs against a loopback target *)
   | L [A 12; A me; A capab], L [A status; A has_ns; A has_cause_i; A syn; A ackpsh; A accepted; L closes; A tuple_mismatch; A endpoint_mismatch; A drained; A leaked] =>
       let m := d_method me in
-      let fault := if capab <=? 1 then FNone else if capab =? 2 then FNoSackPermitted else if capab =? 3 then FAckWithoutSack
+      let fault := if capab <=? 1 then FNone else if capab =? 2 then FNoSackPermitted else if (capab =? 3) || (capab =? 9) then FAckWithoutSack
                    else if capab =? 4 then FDial injected else if capab =? 5 then FHandshakeNotCaptured else if capab =? 6 then FFilter injected
                    else if capab =? 7 then FSend injected else FRead injected in
       (* the SYN traceroute's own outcome under the injected fault (filter fault = 2nd install: never reached by SYN) *)
       let syn_out := match m with MSyn => if (capab =? 7) || (capab =? 8) then RErr (Wrap (Leaf injected)) else ROk | _ => ROk end in
       let r := perform m syn_out (sack_run fault) ROk in
       let cls := 5 + 8 * me + 64 * capab in
-      let unavailable := (capab =? 2) || (capab =? 3) || (capab =? 4) in
+      let unavailable := (capab =? 2) || (capab =? 3) || (capab =? 4) || (capab =? 9) in
       let spec_fail : list Z :=
         if prop =? 20 then
           (if status =? 2 then [20; 9]
@@ -167,7 +167,7 @@ Definition check_par (prop : Z) (inp impl : sx) : sx :=
                 | MSack => if (syn =? 0) && ((status =? 1) || (0 <? ackpsh)) then [] else [20; 1]     (* sack: a SACK trace or an error *)
                 | MPrefer =>
                     if negb (Bool.eqb (0 <? syn) unavailable) then [20; 3]
-                    else if (5 <=? capab) && negb ((status =? 1) && (has_ns =? 0) && ((capab =? 5) || (has_cause_i =? 1))) then [20; 4]
+                    else if (5 <=? capab) && (capab <=? 8) && negb ((status =? 1) && (has_ns =? 0) && ((capab =? 5) || (has_cause_i =? 1))) then [20; 4]
                     else []
                 | _ => []
                 end)
@@ -184,7 +184,7 @@ Definition check_par (prop : Z) (inp impl : sx) : sx :=
           (* every handle the run opened is closed exactly once and not used afterwards; a failure yields an error, with its cause *)
           (if negb (forallb (fun s => match s with L [A 1; A 1; A 0] => true | _ => false end) closes) then [10; 1]
            else if negb (leaked =? 0) then [10; 6]          (* a TCP connection the run dialled is still open after it returned *)
-           else if (6 <=? capab) && (match m with MSyn => (7 <=? capab) | _ => true end) && negb ((status =? 1) && (has_cause_i =? 1)) then [10; 2]
+           else if (6 <=? capab) && (capab <=? 8) && (match m with MSyn => (7 <=? capab) | _ => true end) && negb ((status =? 1) && (has_cause_i =? 1)) then [10; 2]
            else [])
         else [] in
       match spec_fail with
